@@ -191,7 +191,7 @@ PERMS = list(permutations(range(3)))
 
 def wait_params(tier):
     S = 3 if tier == "quick" else 4
-    return [P("perm", 0, 5), P("e10", 0, 1), P("e20", 0, 1), P("e21", 0, 1), P("wp", 0, 1), P("pp", 0, 1), P("cpb", 0, 1)] + [
+    return [P("perm", 0, 5), P("e10", 0, 1), P("e20", 0, 1), P("e21", 0, 1), P("wp", 0, 1), P("pp", 0, 1), P("cpb", 0, 1), P("variant", 0, 2)] + [
         P(f"s{i}", 0, 5) for i in range(S)
     ]
 
@@ -208,6 +208,9 @@ def wait_fn(a, tier):
     if pick(a["e21"], 2):
         edges.append((2, 1))
     wp, pp, cpb = pick(a["wp"], 2), pick(a["pp"], 2), pick(a["cpb"], 2)
+    # ownctx: every waiting sibling first opens and leaves a context of its own; pubkind 1: siblings provide their resource as a FACTORY
+    variant = pick(a["variant"], 3)
+    ownctx, pubkind = int(variant == 1), int(variant == 2)
     tape = Tape([a[f"s{i}"] for i in range(S)])
     env = Env()
     vals = {i: object() for i in range(4)}
@@ -220,8 +223,13 @@ def wait_fn(a, tier):
     for r in range(3):
         nd = node_of[r]
         waits = [("wait", f"w{nd}<-{node_of[p]}", RT[node_of[p]], "default") for (w, p) in edges if w == r]
+        if waits and ownctx:
+            waits.insert(0, ("subctx", "own", RT[0], "default"))
         (prep if wp == 0 else start)[nd] += waits
-        pub_steps = ([("cp",)] if cpb else []) + [("pub", f"res{nd}", vals[nd], "default", [RT[nd]])]
+        if pubkind:
+            pub_steps = ([("cp",)] if cpb else []) + [("fac", f"res{nd}", (lambda v=vals[nd]: v), "default", [RT[nd]])]
+        else:
+            pub_steps = ([("cp",)] if cpb else []) + [("pub", f"res{nd}", vals[nd], "default", [RT[nd]])]
         (prep if pp == 0 else start)[nd] += pub_steps
     # documented vertical dependencies, always present: first-ranked sibling needs the parent's
     # prepare() resource; the parent's start() needs the last-ranked sibling's resource
@@ -237,9 +245,12 @@ def wait_fn(a, tier):
     _, exc, k = run(main, chooser=tape)
     summary = {"sibling_order": [node_of[r] for r in range(3)], "wait_edges": [f"n{node_of[w]} waits for n{node_of[p]}" for w, p in edges],
                "waits_in": "prepare" if wp == 0 else "start", "publishes_in": "prepare" if pp == 0 else "start",
-               "checkpoint_before_publish": bool(cpb), "schedule": tape.taken}
+               "checkpoint_before_publish": bool(cpb), "schedule": tape.taken,
+               "waiters_first_enter_and_leave_a_context_of_their_own": bool(ownctx), "siblings_publish": ["a resource", "a resource factory"][pubkind]}
     if exc is not None:
         return FAIL(f"wait:acyclic-pattern-did-not-complete:{type(exc).__name__}", f"{exc!r} log={env.log}", summary)
+    for key in [k_ for k_ in env.values if k_[1].startswith("own")]:
+        del env.values[key]
     for (nd, label), got in env.values.items():
         if label == "parent-prepare":
             exp = vals[0]
